@@ -155,26 +155,31 @@ def run(ck):
         gens = []
         for pos in range(rng.choice([1, 1, 2, 3])):
             how = rng.choice(["exit1", "exit1", "missing", "sigkill", "reply"])
-            sp = rng.choice(["abs", "rel", "rel", "dot", "dslash", "updown", "bslash", "bslash"])
+            sp = rng.choice(["abs", "rel", "rel", "dot", "dslash", "updown", "bslash", "bslash", "ctl", "ctl", "astral", "astral"])
             gens.append(("gen-%s-%d" % (how, pos), rng.choice([None, "k=v"]), dc.enc_reply([]) if how == "reply" else None, sp))
         if rng.random() < 0.4:
             # the same generator named twice (other arguments): two generators, two reports if it fails
             g0 = rng.choice(gens)
             gens.insert(rng.randrange(len(gens) + 1), (g0[0], rng.choice([None, "language=b,verbose", "k=v"]), g0[2], g0[3]))
-        flines.append(dc.run_line(False, extra, gens, src))
-        fmeta.append(gens)
+        ffmt = rng.choice(["json", "human"])
+        flines.append(dc.run_line(False, ["--diagnostic-format", ffmt, "--disable-color"], gens, src))
+        fmeta.append((gens, ffmt))
     of = [dc.parse_run(x) for x in dc.run_all(flines)]
     ck.stream("failing-generator-path", description="1..3 generators that fail (exit status, missing executable, killed) or work, their paths written absolutely, relative to the working directory, with a '.' or '..' component, "
-              "a doubled slash or through a directory with backslashes in its name, some named twice: every failing generator is reported once, by the path as written")
-    for gens, x, line in zip(fmeta, of, flines):
-        ck.count("failing-generator-path", line, kind="+".join(sorted({g[3] for g in gens})))
+              "a doubled slash or through a directory with backslashes, control characters or characters beyond the basic plane in its name, some named twice, in JSON and in human format: every failing generator is reported once, by the path as written")
+    for (gens, ffmt), x, line in zip(fmeta, of, flines):
+        ck.count("failing-generator-path", line, kind=ffmt + ":" + "+".join(sorted({g[3] for g in gens})))
         if x is None:
             ck.violation("failing-generator-path", "crash", line[:200], "a run", "no result")
             continue
-        msgs = [d.get("message", "") for d in dc.json_diags(x["stderr"]) if d.get("severity") == "error"]
+        if ffmt == "json":
+            msgs = [d.get("message", "") for d in dc.json_diags(x["stderr"]) if d.get("severity") == "error"]
+        else:
+            msgs = [l for l in x["stderr"].decode("utf-8", "replace").split("\n") if l.startswith("error [")]
         for nm, _, reply, sp in sorted(set((g[0], None, g[2], g[3]) for g in gens), key=lambda g: g[0]):
             times = sum(1 for g in gens if g[0] == nm)
-            tail = {"abs": "/gens/%s'" % nm, "rel": "'../gens/%s'" % nm, "dot": "/gens/./%s'" % nm, "dslash": "/gens//%s'" % nm, "updown": "/gens/../gens/%s'" % nm, "bslash": "/gens/odd\\dir \\x/%s'" % nm}[sp]
+            tail = {"abs": "/gens/%s'" % nm, "rel": "'../gens/%s'" % nm, "dot": "/gens/./%s'" % nm, "dslash": "/gens//%s'" % nm, "updown": "/gens/../gens/%s'" % nm, "bslash": "/gens/odd\\dir \\x/%s'" % nm,
+                    "ctl": "/gens/c\x01t\x9bl\x7f/%s'" % nm, "astral": "/gens/a\U0001F600\U0010FFFFz/%s'" % nm}[sp]
             hits = [m_ for m_ in msgs if "run code-generator" in m_ and tail in m_ and (sp != "abs" or not any(t in m_ for t in ("/./", "//", "/../", "\\")))]
             if len(hits) != (times if reply is None else 0):
                 ck.violation("failing-generator-path", "failing-generator-not-named-as-written", " ".join("%s (%s)" % (g[0], g[3]) for g in gens),
